@@ -1,6 +1,6 @@
 // C16: the CLI exits 0 and announces success iff the package was fully written into <out>/<name>; flags are
 // honoured; an unusable name is rejected before anything is created; nothing that existed is ever modified.
-// Configurations (flags x input class x pre-state (and five further spellings of -out: relative, ./, with .., trailing slash, as a separate argument) of the output location) are enumerated against the real binary,
+// Configurations (flags x input class (three accepted specifications: ordinary, without any terminal, with a terminal owning no state; five rejected kinds) x pre-state (and five further spellings of -out: relative, ./, with .., trailing slash, as a separate argument) of the output location) are enumerated against the real binary,
 // and for successful configurations an error is injected into the k-th mkdirat/openat/write/newfstatat for every k.
 package main
 
@@ -27,9 +27,14 @@ var inputs = map[string]string{
 	"tokconf":  "grammar demo ;\nAA = /[a-z]+/ ;\nBB = /[a-c]+/ ;\nstart = AA BB ;\n",
 	"lalrconf": "grammar demo ;\nstart = e ;\ne = e \"+\" e | \"i\" ;\n",
 	"missing":  "",
+	// accepted specifications of unusual shape: no terminal at all; only implicit literals; a terminal owning no state
+	"valid-no-terminal": "grammar demo ;\nstart = a a ;\na = ;\n",
+	"valid-shadowed":    "grammar demo ;\nKW = /i[f]/ ;\nID = /[a-z]+/ ;\nstart = \"if\" KW ID ;\n",
 }
 
-var inputOrder = []string{"valid", "lexical", "semantic", "tokconf", "lalrconf", "missing"}
+func valid(input string) bool { return strings.HasPrefix(input, "valid") }
+
+var inputOrder = []string{"valid", "lexical", "semantic", "tokconf", "lalrconf", "missing", "valid-no-terminal", "valid-shadowed"}
 
 var names = []string{"", "pk", "if", "1x", "a-b", "_", "a/b", "Größe", "demo"}
 
@@ -245,12 +250,12 @@ func run(bin, tmp string, id int, c config) result {
 // golden bytes of the package for a given name
 var golden = map[string]map[string]string{}
 
-func goldenFor(bin, tmp, name string, debug bool) map[string]string {
-	key := fmt.Sprintf("%s/%v", name, debug)
+func goldenFor(bin, tmp, name string, debug bool, input string) map[string]string {
+	key := fmt.Sprintf("%s/%v/%s", name, debug, input)
 	if g, ok := golden[key]; ok {
 		return g
 	}
-	c := config{Name: name, Input: "valid", Pre: "out-empty", Debug: debug}
+	c := config{Name: name, Input: input, Pre: "out-empty", Debug: debug}
 	res := run(bin, tmp, 999000+len(golden), c)
 	g := map[string]string{}
 	if res.code == 0 {
@@ -303,7 +308,11 @@ func judge(r *ev.Run, bin, tmp string, c config, res result) {
 	announced := strings.Contains(res.stdout+res.stderr, "Successful")
 	// is the package complete?
 	complete := true
-	want := goldenFor(bin, tmp, name, c.Debug)
+	goldenInput := "valid"
+	if valid(c.Input) {
+		goldenInput = c.Input
+	}
+	want := goldenFor(bin, tmp, name, c.Debug, goldenInput)
 	for _, f := range targetFiles {
 		b, err := os.ReadFile(filepath.Join(res.pkgDir, f))
 		if err != nil || len(want) == 0 || string(b) != want[f] {
@@ -315,7 +324,7 @@ func judge(r *ev.Run, bin, tmp string, c config, res result) {
 		complete = false // a pre-existing location is never "written by this run"
 	}
 	if c.Fault == "" {
-		expectSuccess := c.Input == "valid" && usable(name) && !c.Help && !c.Ver && !pkgExisted &&
+		expectSuccess := valid(c.Input) && usable(name) && !c.Help && !c.Ver && !pkgExisted &&
 			c.Pre != "out-missing" && c.Pre != "out-is-file"
 		switch {
 		case c.Help || c.Ver:
